@@ -1,0 +1,77 @@
+//go:build verif
+
+package condition
+
+import (
+	"fmt"
+	"math"
+	"strings"
+
+	"github.com/expr-lang/expr"
+)
+
+// Accessors for the verification harness (/verif, property C12). Compiled only with -tags verif.
+
+// VerifFastEval asks the shortcut of a condition built by NewExprCondition exactly as
+// Evaluate does (compound first, else the single comparison); ok=false means the shortcut
+// declined (or there is none) and Evaluate would run the general evaluator.
+func VerifFastEval(c Condition, env any) (result bool, ok bool) {
+	ec, isExpr := c.(*ExprCondition)
+	if !isExpr {
+		return false, false
+	}
+	if ec.compound != nil {
+		return ec.compound.eval(env)
+	}
+	if ec.fast != nil {
+		return ec.fast.eval(env)
+	}
+	return false, false
+}
+
+// VerifGeneralEval runs the compiled expr-lang program only (no shortcut) and reports the
+// evaluation error that Evaluate turns into "reject".
+func VerifGeneralEval(c Condition, env any) (result bool, err error) {
+	ec, isExpr := c.(*ExprCondition)
+	if !isExpr {
+		return false, fmt.Errorf("not an ExprCondition")
+	}
+	out, err := expr.Run(ec.program, env)
+	if err != nil {
+		return false, err
+	}
+	b, isBool := out.(bool)
+	if !isBool {
+		return false, fmt.Errorf("non-bool result %T", out)
+	}
+	return b, nil
+}
+
+func verifShapeOf(fc *fastCompare) string {
+	if fc.isString {
+		return fmt.Sprintf("%x %s s:%x", fc.field, fc.op, fc.strLit)
+	}
+	n := fc.numLit
+	if n == 0 {
+		n = 0 // -0 and +0 are the same literal value
+	}
+	return fmt.Sprintf("%x %s f:%016x", fc.field, fc.op, math.Float64bits(n))
+}
+
+// VerifFastShape reports which shortcut tryFastCompound / tryFastCompare recognise in the
+// text, in the order NewExprCondition consults them: "none", "cmp <field> <op> <lit>",
+// "and <n> (<field> <op> <lit>)…", "or <n> …". Field and string literal are hex, a numeric
+// literal is the IEEE bit pattern of numLit.
+func VerifFastShape(expression string) string {
+	if fc := tryFastCompound(expression); fc != nil {
+		parts := make([]string, 0, len(fc.parts))
+		for _, p := range fc.parts {
+			parts = append(parts, verifShapeOf(p))
+		}
+		return fmt.Sprintf("%s %d %s", strings.ToLower(fc.op), len(fc.parts), strings.Join(parts, " "))
+	}
+	if fc := tryFastCompare(expression); fc != nil {
+		return "cmp " + verifShapeOf(fc)
+	}
+	return "none"
+}
